@@ -110,7 +110,28 @@ def gen_slot_ops(chk):
     return ops
 
 
+def session_part(chk):
+    """the pool as the running server uses it: addresses handed out in login replies, tun frames routed by find_user_by_ip in the real loop"""
+    import srvcheck
+    exe = vlib.build_srv()
+    runs = 48 if chk.tier == "thorough" else 16
+    jobs = [(exe, chk.seed * 18000 + k, 350, ("C18",), {"netbits": [24, 27, 28, 29, 30, 16, 8][k % 7]}) for k in range(runs)]
+    from concurrent.futures import ProcessPoolExecutor
+    with ProcessPoolExecutor(16) as ex:
+        res = list(ex.map(srvcheck._one_run, jobs))
+    bad = 0
+    for r in res:
+        mine = [v for v in r["viol"] if v[0] == "C18"]
+        if mine:
+            p_, i, msg = mine[0]
+            chk.violation("C18 fails on the implementation (server loop, seed %d, step %d): %s" % (r["seed"], i, msg), r["ops"][:i + 1], key="c18:srv")
+            bad += 1
+    chk.notes["session_ops"] = sum(len(r["ops"]) for r in res)
+    return bad
+
+
 def run(chk):
+    sbad = session_part(chk)
     ops = gen_pool_ops(chk)
     chk.notes["pool_configurations"] = len(ops)
     oracle = oracle_factory()
